@@ -16,6 +16,8 @@ def _alarm(*_):
 
 
 signal.signal(signal.SIGALRM, _alarm)
+LOOPY = {"SGcd", "OGcd", "SMod", "OMod", "PFactS", "PFactO", "dioph", "ONormalize", "PSqrtMod", "DMk", "TMk",
+         "DAdd", "DMatmul", "TMatmul", "DLaw"}
 
 
 def S(v):
@@ -232,15 +234,21 @@ def run(c):
 
 
 payload = json.load(sys.stdin)
-tmo = payload.get("timeout", 5.0)
+tmo = payload.get("timeout", 2.0)
+n_tmo = 0
 out = []
 for i, c in enumerate(payload["cases"]):
     random.seed(7919 + i)
-    signal.setitimer(signal.ITIMER_REAL, tmo)
+    if n_tmo >= 25 and c["op"] in LOOPY:
+        # a tree that hangs everywhere: stop spending time, report the remaining loop-prone cases as hanging too
+        out.append("TIMEOUT")
+        continue
+    signal.setitimer(signal.ITIMER_REAL, tmo if n_tmo < 6 else 0.3)
     try:
         r = run(c)
     except CaseTimeout:
         r = "TIMEOUT"
+        n_tmo += 1
     except Exception:
         r = "ERR"
     finally:
